@@ -2,7 +2,21 @@
 
 Events: pub_lazy (touch every lazy group of the public table), new_T / new_T2 (create a private
 table and initialise mass+density), T_groups (initialise every other group on T).  A path is
-executed in a fresh forked interpreter; the end state is then swept row by row."""
+executed in a fresh forked interpreter; the end state is then swept row by row.
+
+Added later (additive; the events and paths above keep their meaning):
+* OPTION events - the optional arguments of every init function and a second init:
+    new_R       create a private table R and initialise mass+density with reload=True from the start
+    R_groups    initialise every other group on R with reload=True
+    T_again     call every init function already applied to T a second time with the default arguments
+    T_reload    call every init function already applied to T again with reload=True
+    pub_again / pub_reload   the same two on the public table (mass, density and every lazily loaded group)
+    pub_init    explicit init (default arguments) of every group on the public table, loaded lazily before or not
+* FIRST-ACCESS events "first:<kind>" (optionally "first:<kind>@<attribute>", default attribute 'neutron'): the first
+  access of a lazily loaded attribute of the public table goes through an atom object of the given kind
+  (FIRST_KINDS).  Meant for the START of a path (a fresh process).  The object served by that very access is kept in
+  the optional `obs` dictionary of apply_event (obs["first"]) so that a check can judge it.
+* atom_routes(): every access route of a table to its elements and nuclides."""
 from .common import MachineryError
 
 LAZY = ["covalent_radius", "crystal_structure", "neutron", "xray", "K_alpha", "magnetic_ff"]
@@ -19,6 +33,45 @@ QUICK_PATHS = [(), ("pub_lazy",), ("new_T",), ("pub_lazy", "new_T"), ("new_T", "
                ("pub_lazy", "new_T", "T_groups", "T_custom"),
                ("pub_custom", "new_T", "T_groups")]
 
+OPTION_EVENTS = ("new_R", "R_groups", "T_again", "T_reload", "pub_again", "pub_reload", "pub_init")
+
+QUICK_PATHS += [("new_R",), ("new_R", "R_groups"),
+                ("new_T", "T_again"), ("new_T", "T_reload"),
+                ("new_T", "T_groups", "T_again"), ("new_T", "T_groups", "T_reload"),
+                ("pub_again",), ("pub_reload",), ("pub_lazy", "pub_again"), ("pub_lazy", "pub_reload"),
+                ("pub_init",), ("pub_init", "pub_reload"), ("pub_reload", "new_T", "T_groups", "pub_lazy"),
+                ("new_R", "R_groups", "new_T", "T_groups", "T_reload", "pub_lazy")]
+
+# kind -> expression of the atom whose attribute is read first (P is the public table)
+FIRST_KINDS = [
+    ("element", "P.Fe"), ("isotope", "P.Ni[62]"), ("ion", "P.Fe.ion[2]"), ("isotope-ion", "P.Ni[58].ion[2]"),
+    ("D", "P.D"), ("T", "P.T"), ("D-ion", "P.D.ion[1]"), ("neutron", "P[0]"),
+    ("absent-isotope", "P.H[6]"), ("absent-element", "P.Po"),
+    ("single-isotope-element", "P.Au"), ("sole-isotope", "P.Au[197]"), ("no-element-row", "P.Pu"),
+    ("energy-isotope", "P.Gd[157]"), ("energy-element", "P.Sm"), ("derived-energy-element", "P.Lu"),
+    ("library", None),            # the first access is made by the library itself: neutron_sld of a compound with D
+]
+FIRST_EVENTS = tuple("first:" + k for k, _ in FIRST_KINDS)
+
+
+def first_paths(tier="quick"):
+    """Paths that begin with a first-access event.  quick: every kind alone and every kind followed by a private
+    table with all groups; thorough: every kind in front of every path of all_paths()."""
+    if tier == "quick":
+        return [(e,) for e in FIRST_EVENTS] + [(e, "new_T", "T_groups") for e in FIRST_EVENTS]
+    return [(e,) + p for e in FIRST_EVENTS for p in base_paths()]
+
+
+def full_tables(path, tables):
+    """[(label, table)] of the private tables on which every group was initialised by the path."""
+    out = []
+    if "T_groups" in path:
+        out.append(("T", tables["T"]))
+    if "R_groups" in path:
+        out.append(("R", tables["R"]))
+    return out
+
+
 CUSTOMISED = {"T_custom": "T", "pub_custom": "public"}      # event -> table whose values are no longer judged
 
 
@@ -28,7 +81,7 @@ def judged_tables(path, live):
     return [(l, t) for l, t in live if l not in skip]
 
 
-def all_paths():
+def base_paths():
     out = [()]
     def ok(p, e):
         if e in p:
@@ -50,9 +103,108 @@ def all_paths():
     return out
 
 
-def apply_event(pt, ev, tables, tag):
+def _option_ok(p, e):
+    if e in ("T_again", "T_reload"):
+        return "new_T" in p
+    if e == "R_groups":
+        return "new_R" in p
+    return True
+
+
+def all_paths():
+    """Thorough graph: every ordering of EVENTS up to length 4 (as before), every fixed path of QUICK_PATHS, and
+    every ordering of up to three EVENTS with ONE option event inserted at every position where it is enabled
+    (R_groups only together with new_R directly before it)."""
+    out = list(base_paths())
+    seen = set(out)
+    def add(p):
+        if p not in seen:
+            seen.add(p)
+            out.append(p)
+    for p in QUICK_PATHS:
+        add(tuple(p))
+    for p in base_paths():
+        if len(p) > 3:
+            continue
+        for e in OPTION_EVENTS:
+            for i in range(len(p) + 1):
+                if e == "R_groups":
+                    q = p[:i] + ("new_R", "R_groups") + p[i:]
+                else:
+                    q = p[:i] + (e,) + p[i:]
+                    if not _option_ok(q[:i], e):
+                        continue
+                add(q)
+    return out
+
+
+# Source text of the added events: executed by apply_event and quoted verbatim by snippet().
+# Names available: pt, P (public table), tables, core, mass, density, NAME (a fresh table name).
+_INITS = ("import periodictable.nsf, periodictable.xsf, periodictable.covalent_radius, periodictable.crystal_structure, "
+          "periodictable.magnetic_ff, periodictable.activation\n"
+          "INITS = dict(mass=pt.mass.init, density=pt.density.init, neutron=pt.nsf.init, xray=pt.xsf.init, "
+          "covalent_radius=pt.covalent_radius.init, crystal_structure=pt.crystal_structure.init, "
+          "magnetic_ff=pt.magnetic_ff.init, neutron_activation=pt.activation.init)\n"
+          "ORDER = ['mass', 'density', 'neutron', 'xray', 'covalent_radius', 'crystal_structure', 'magnetic_ff', "
+          "'neutron_activation']\n")
+_REINIT = (_INITS +
+           "applied = [n for n in ORDER if n in X.properties]\n"
+           "for n in applied: INITS[n](X%s)\n"
+           "if 'xray' in applied: pt.xsf.init_spectral_lines(X)\n")
+EVENT_SRC = {
+    "new_R": "X = core.PeriodicTable(NAME); mass.init(X, reload=True); density.init(X, reload=True); tables['R'] = X\n",
+    "R_groups": (_INITS + "X = tables['R']\n"
+                 "for n in ORDER[2:]: INITS[n](X, reload=True)\n"
+                 "pt.xsf.init_spectral_lines(X)\n"),
+    "T_again": "X = tables['T']\n" + _REINIT % "",
+    "T_reload": "X = tables['T']\n" + _REINIT % ", reload=True",
+    "pub_again": "X = P\n" + _REINIT % "",
+    "pub_reload": "X = P\n" + _REINIT % ", reload=True",
+    "pub_init": (_INITS + "for n in ORDER: INITS[n](P)\n"
+                 "pt.xsf.init_spectral_lines(P)\n"),
+}
+
+
+def first_event(ev):
+    """'first:<kind>[@attr]' -> (kind, attr, atom expression or None)."""
+    body = ev[len("first:"):]
+    kind, _, attr = body.partition("@")
+    expr = dict(FIRST_KINDS).get(kind, "?")
+    if expr == "?":
+        raise MachineryError(ev)
+    return kind, attr or "neutron", expr
+
+
+def _first_src(ev):
+    kind, attr, expr = first_event(ev)
+    if expr is None:
+        return "first = pt.neutron_sld('D2O', density=1.1, wavelength=4.75)\n"
+    return "first = getattr(%s, %r)\n" % (expr, attr)
+
+
+def _run_src(src, pt, tables, name):
     from periodictable import core, mass, density
-    if ev == "pub_lazy":
+    ns = dict(pt=pt, P=pt.elements, tables=tables, core=core, mass=mass, density=density, NAME=name)
+    exec(compile(src, "<configuration event>", "exec"), ns)
+    return ns
+
+
+def apply_event(pt, ev, tables, tag, obs=None):
+    from periodictable import core, mass, density
+    if ev in EVENT_SRC:
+        _run_src(EVENT_SRC[ev], pt, tables, "c06-%s-%s" % (tag, ev))
+    elif ev.startswith("first:"):
+        kind, attr, expr = first_event(ev)
+        rec = dict(kind=kind, attr=attr, expr=expr, event=ev)
+        try:
+            rec["value"] = _run_src(_first_src(ev), pt, tables, None)["first"]
+        except Exception as e:
+            if obs is None:
+                raise
+            rec["error"] = "%s: %s" % (type(e).__name__, e)
+        if obs is not None:
+            obs["first"] = rec
+    elif ev == "pub_lazy":
         for name in LAZY:
             getattr(pt.elements.Fe, name, None)
         getattr(pt.elements.Fe[56], "neutron_activation", None)
@@ -89,8 +241,14 @@ def apply_event(pt, ev, tables, tag):
 def snippet(path, label, code):
     lines = ["import periodictable as pt", "from periodictable import core, mass, density",
              "tables = {'public': pt.elements}"]
+    lines.append("P = pt.elements")
     for ev in path:
-        if ev == "pub_lazy":
+        if ev in EVENT_SRC:
+            lines.append("NAME = %r" % ev)
+            lines.append(EVENT_SRC[ev].rstrip("\n"))
+        elif ev.startswith("first:"):
+            lines.append(_first_src(ev).rstrip("\n") + "    # the first access of this process")
+        elif ev == "pub_lazy":
             lines.append("for n in %r: getattr(pt.elements.Fe, n, None)" % (LAZY,))
             lines.append("getattr(pt.elements.Fe[56], 'neutron_activation', None)")
         elif ev in ("new_T", "new_T2"):
@@ -111,3 +269,52 @@ def snippet(path, label, code):
     return "\n".join(lines) + "\n"
 
 
+def atom_routes(pt, T, label):
+    """Every access route of table T to its elements and nuclides.
+
+    Yields (route class, key, python expression in terms of T / pt, canonical object, thunk -> object served by the
+    route).  The canonical object is T[Z] for an element and T[Z][A] for a nuclide (what the row sweeps read).  The
+    routes of one atom are yielded 'primary first': a route whose class ends in '*' is derived from the preceding
+    primary route of the same atom (symbol('D') reads the attribute D), so a caller may skip the derived routes of an
+    atom whose primary route already failed.  Nothing here mutates the table (add_isotope is only called for mass
+    numbers that exist)."""
+    public = label == "public"
+    els = list(T)
+    for pos, el in enumerate(els):
+        Z, sym, name = el.number, el.symbol, el.name
+        canon = T[Z]
+        yield ("iteration", [Z], "list(T)[%d]" % pos, canon, (lambda el=el: el))
+        yield ("attribute", [Z], "T.%s" % sym, canon, (lambda sym=sym: getattr(T, sym)))
+        yield ("symbol()*", [Z], "T.symbol(%r)" % sym, canon, (lambda sym=sym: T.symbol(sym)))
+        yield ("isotope()*", [Z], "T.isotope(%r)" % sym, canon, (lambda sym=sym: T.isotope(sym)))
+        yield ("name()", [Z], "T.name(%r)" % name, canon, (lambda name=name: T.name(name)))
+        if public:
+            yield ("module-export", [Z], "pt.%s" % sym, canon, (lambda sym=sym: getattr(pt, sym)))
+            yield ("module-export", [Z], "pt.%s" % name, canon, (lambda name=name: getattr(pt, name)))
+        served = dict((iso.isotope, iso) for iso in el)
+        for A in el.isotopes:
+            c = el[A]
+            yield ("isotope-iteration", [Z, A], "[i for i in T[%d] if i.isotope == %d][0]" % (Z, A), c,
+                   (lambda A=A, served=served: served[A]))
+            yield ("attribute-index", [Z, A], "T.%s[%d]" % (sym, A), c, (lambda sym=sym, A=A: getattr(T, sym)[A]))
+            yield ("isotope()", [Z, A], "T.isotope('%d-%s')" % (A, sym), c,
+                   (lambda sym=sym, A=A: T.isotope("%d-%s" % (A, sym))))
+            yield ("add_isotope-existing", [Z, A], "T[%d].add_isotope(%d)" % (Z, A), c,
+                   (lambda el=el, A=A: el.add_isotope(A)))
+            if c.ion is not None and el.ions:
+                q = el.ions[0]
+                yield ("ion-parent", [Z, A], "T[%d][%d].ion[%d].element" % (Z, A, q), c,
+                       (lambda c=c, q=q: c.ion[q].element))
+        if el.ions:
+            q = el.ions[0]
+            yield ("ion-parent", [Z], "T[%d].ion[%d].element" % (Z, q), canon, (lambda el=el, q=q: el.ion[q].element))
+    # the two specially named nuclides
+    for sym, name, A in (("D", "deuterium", 2), ("T", "tritium", 3)):
+        c = T[1][A]
+        yield ("special-name", [1, A], "T.%s" % sym, c, (lambda sym=sym: getattr(T, sym)))
+        yield ("symbol()*", [1, A], "T.symbol(%r)" % sym, c, (lambda sym=sym: T.symbol(sym)))
+        yield ("isotope()*", [1, A], "T.isotope(%r)" % sym, c, (lambda sym=sym: T.isotope(sym)))
+        yield ("name()*", [1, A], "T.name(%r)" % name, c, (lambda name=name: T.name(name)))
+        if public:
+            yield ("module-export", [1, A], "pt.%s" % sym, c, (lambda sym=sym: getattr(pt, sym)))
+            yield ("module-export", [1, A], "pt.%s" % name, c, (lambda name=name: getattr(pt, name)))
